@@ -3,3 +3,5 @@ pub mod keys;
 pub mod replay;
 pub mod report;
 pub mod session;
+pub mod oracles;
+pub mod script;
